@@ -756,6 +756,7 @@ def run_intervals(case):
     except Exception as e:
         V.add('intervals/exception/setup/%s' % type(e).__name__, '%s: %r' % (t, e))
         return {'viol': V.out(), 'states': 0, 'outcome': 'exception'}
+    worst_unequal = [0.0]
     # equal numbers of phi and theta intervals, then (thorough tier and every fourth quick case) unequal ones: (n, n/2) and (n/2, n)
     grids = [(n, n) for n in case['n']] + [g for n in case['n'][-1:] for g in ((n, n // 2), (n // 2, n)) if case.get('unequal')]
     for nphi, nth in grids:
@@ -792,10 +793,12 @@ def run_intervals(case):
             if nphi == nth:
                 errs[(n, sym)] = abs(a['Bohm'] - eref) / abs(eref)
             elif max(axes) / min(axes) <= 3.0:
-                # unequal numbers of intervals: at least as fine as the coarser equal grid in both directions, so the same coarse
-                # bound applies (measured 1e-4 .. 1e-3 on the unchanged tree)
+                # unequal numbers of intervals: nothing is promised about the accuracy of the mid-point rule; the bound only has to
+                # separate "converging to the right number" (measured up to 1.2e-2 at (64, 32) for a 3:1 oblate particle on the
+                # unchanged tree) from a wrong grid (errors of order 1)
                 eu = abs(a['Bohm'] - eref) / abs(eref)
-                if not eu <= 1e-2:
+                worst_unequal[0] = max(worst_unequal[0], eu)
+                if not eu <= 1e-1:
                     V.add('intervals/reference/unequal%s' % ('/octant' if sym else ''), '%s: energy %.3g away (relative) from the independent '
                           'reference %r' % (tt, eu, eref))
     if errs:
@@ -813,7 +816,8 @@ def run_intervals(case):
                 V.add('intervals/not-converging%s' % ('/octant' if sym else ''), '%s: error %.3g at %d intervals, %.3g at %d'
                       % (t, errs[ks[-2]], ks[-2][0], last, ks[-1][0]))
     return {'viol': V.out(), 'states': nst, 'transitions': ntr, 'outcome': 'intervals/%s' % ('octant+full' if case['symmetric_ok'] else 'full'),
-            'info': {'rel_err': {'%d%s' % (k[0], 's' if k[1] else ''): float('%.3g' % v) for k, v in errs.items()}}}
+            'info': {'rel_err': {'%d%s' % (k[0], 's' if k[1] else ''): float('%.3g' % v) for k, v in errs.items()},
+                     'worst_unequal_rel_err': float('%.3g' % worst_unequal[0])}}
 
 
 SETTER_CANON = ['rot', 'rotP', 'stiff', 'prec', 'eig', 'shape']
